@@ -30,7 +30,7 @@ from runner import Exploration, Finding
 
 SPEC = {
     "prop": "C10",
-    "lean_targets": ["InfernoVerif.Props.C10"],
+    "lean_targets": ["InfernoVerif.Props.C10", "InfernoVerif.Drv.Proto"],
     "prop_files": ["InfernoVerif/Props/C10.lean"],
     "lemma_files": ["InfernoVerif/Lemmas/Updater.lean"],
     "model_files": ["InfernoVerif/Model/Updater.lean"],
@@ -40,6 +40,7 @@ SPEC = {
         "half bounding functions are configured with a limit (and power / range) as their docstrings require; a `None` limit is generated only for the full functions, where the code branches on it",
         "parts are float64 tensors (nn.ParameterList wraps them in Parameters, so integer parts are rejected by torch itself)",
         "accumulator operations address declared parameters of a live updater; the parent module is alive (weak reference valid)",
+        "power dependence with a non-integer exponent is undefined (NaN in float64) for a parameter beyond the limit; with a FULL bounding function the unused side's NaN * 0 then poisons the update while the pair of half functions stays finite - such float cases (real code == Float copy of the code-shaped model, both NaN) are counted in the evidence and not judged against the real-number specification",
         "theorems over the reals; float rounding is outside them: the real code is compared exactly on dyadic inputs that stay representable and to 1e-12 relative otherwise; the stay-in-range check on the real parameter allows 1e-12*max(1,|min|,|max|)",
     ],
 }
